@@ -290,6 +290,14 @@ class Universe:
         f = rng.choice([x for x in self.formats if isinstance(x, str) and x.strip()] or ["f1"])
         cidA = self.cid_of(A)
         out = []
+        # two (pid, format) pairs whose concatenations coincide: each keeps its own document (both orders)
+        for (a_, b_) in getattr(self, "twins", []):
+            for (x, y) in ((a_, b_), (b_, a_)):
+                out.append([store_metadata(x[0], self.data_ok(A), x[1]), store_metadata(y[0], self.data_ok(B), y[1]),
+                            retrieve_metadata(x[0], x[1]), retrieve_metadata(y[0], y[1]), delete_metadata(y[0], y[1]),
+                            retrieve_metadata(y[0], y[1]), retrieve_metadata(x[0], x[1]),
+                            store_metadata(y[0], self.data_ok(A), y[1]), delete_metadata(x[0], None),
+                            retrieve_metadata(y[0], y[1]), retrieve_metadata(x[0], x[1])])
         # a pid deleted and stored again with other content while another pid keeps the old object alive:
         # once for every ordered pair of the first pids (one may be a prefix / suffix / variant of the other)
         pool = list(self.pattern_pids) if getattr(self, "pattern_pids", None) else list(self.pids[:3])
@@ -298,6 +306,11 @@ class Universe:
             out.append([store_object(x, self.data_ok(A)), store_object(y, self.data_ok(A)), get_hex_digest(x, a1),
                         retrieve_object(x), delete_object(x), store_object(x, self.data_ok(B)), get_hex_digest(x, a1),
                         retrieve_object(x), get_hex_digest(y, a1), retrieve_object(y)])
+        # ... and the same with the same content again: the list a pid was removed from takes new entries
+        for (x, y) in pairs[:2]:
+            out.append([store_object(x, self.data_ok(A)), store_object(y, self.data_ok(A)), delete_object(x),
+                        store_object(x, self.data_ok(A)), retrieve_object(y), retrieve_object(x), delete_object(y),
+                        retrieve_object(x), get_hex_digest(x, a1)])
         # last reference deleted, same content stored again
         out.append([store_object(p, self.data_ok(A)), get_hex_digest(p, a1), delete_object(p), store_object(q, self.data_ok(A)),
                     retrieve_object(q), get_hex_digest(q, a1), store_object(p, self.data_ok(A)), retrieve_object(p)])
